@@ -153,6 +153,7 @@ func (cse *connectivityStateEvaluator) recordTransition(
 // subConnRef keeps reference to the real SubConn with its
 // connectivity state, affinity count and streams count.
 type subConnRef struct {
+	mu          sync.RWMutex // Guards subConn, lastResp, refreshing and refreshCnt.
 	subConn     balancer.SubConn
 	stateSignal chan struct{} // This channel is closed and re-created when subConn or its state changes.
 	affinityCnt int32         // Keeps track of the number of keys bound to the subConn.
@@ -192,9 +193,30 @@ func (ref *subConnRef) deCallsInc() uint32 {
 }
 
 func (ref *subConnRef) gotResp() {
+	ref.mu.Lock()
+	defer ref.mu.Unlock()
 	ref.lastResp = time.Now()
 	atomic.StoreUint32(&ref.deCalls, 0)
 	ref.refreshCnt = 0
+}
+
+func (ref *subConnRef) getSubConn() balancer.SubConn {
+	ref.mu.RLock()
+	defer ref.mu.RUnlock()
+	return ref.subConn
+}
+
+// respInfo returns the timestamp of the last response and the number of refreshes since then.
+func (ref *subConnRef) respInfo() (time.Time, uint32) {
+	ref.mu.RLock()
+	defer ref.mu.RUnlock()
+	return ref.lastResp, ref.refreshCnt
+}
+
+func (ref *subConnRef) isRefreshing() bool {
+	ref.mu.RLock()
+	defer ref.mu.RUnlock()
+	return ref.refreshing
 }
 
 type gcpBalancer struct {
@@ -422,12 +444,14 @@ func (gb *gcpBalancer) leastBusyReadyRef() *subConnRef {
 }
 
 func (gb *gcpBalancer) getSubConnRoundRobin(ctx context.Context) *subConnRef {
+	gb.mu.RLock()
 	if len(gb.scRefList) == 0 {
+		gb.mu.RUnlock()
 		gb.newSubConn()
+		gb.mu.RLock()
 	}
 	scRef := gb.scRefList[atomic.AddUint32(&gb.rrRefId, 1)%uint32(len(gb.scRefList))]
 
-	gb.mu.RLock()
 	if state := gb.scStates[scRef.subConn]; state == connectivity.Ready {
 		gb.mu.RUnlock()
 		return scRef
@@ -537,11 +561,13 @@ func (gb *gcpBalancer) UpdateSubConnState(sc balancer.SubConn, scs balancer.SubC
 				gb.fallbackMap[k] = sc
 			}
 		}
+		scRef.mu.Lock()
 		scRef.subConn = sc
-		scRef.deCalls = 0
+		atomic.StoreUint32(&scRef.deCalls, 0)
 		scRef.lastResp = time.Now()
 		scRef.refreshing = false
 		scRef.refreshCnt++
+		scRef.mu.Unlock()
 		gb.cc.RemoveSubConn(oldSc)
 	}
 
@@ -612,11 +638,13 @@ func (gb *gcpBalancer) UpdateSubConnState(sc balancer.SubConn, scs balancer.SubC
 // refresh initiates a new SubConn for a specific subConnRef and starts connecting.
 // If the refresh is already initiated for the ref, then this is a no-op.
 func (gb *gcpBalancer) refresh(ref *subConnRef) {
-	if ref.refreshing {
+	if ref.isRefreshing() {
 		return
 	}
 	gb.mu.Lock()
 	defer gb.mu.Unlock()
+	ref.mu.Lock()
+	defer ref.mu.Unlock()
 	if ref.refreshing {
 		return
 	}
